@@ -337,6 +337,41 @@ class World:
         chain = [(st, sender(st)) for (st, _f) in chain]
         self._spawn_user(step, sender(step), chain)
 
+    def op_user_send_on_connect(self, step) -> None:
+        """A connection subscriber that submits a message from inside its connected=True callback - what the API classes
+        do for their handshake / refresh requests: the socket already calls itself connected, the buffered messages have
+        not been flushed yet."""
+        cid = len(self.calls)
+        st = dict(step, op="user.send", on_connect=True)
+        rec = {"id": cid, "op": "user.send", "step": st, "t_call": None, "t_ret": None, "result": None, "exc": None,
+               "seq_call": None, "seq_ret": None}
+        self.calls.append(rec)
+        done = []
+
+        async def on_conn(*, connected: bool) -> None:
+            if not connected or done:
+                return
+            done.append(1)
+            rec["t_call"] = self.loop._vtime
+            rec["seq_call"] = self.trace.add("user.call", k="user.send", id=cid, d=_brief(st))
+            try:
+                msg = adapter.message_from(self.gen, st["msg"])
+                await self.sock.send(msg, adapter.policy_of(st.get("policy", "idem")))
+                rec["t_ret"] = self.loop._vtime
+                rec["seq_ret"] = self.trace.add("user.return", k="user.send", id=cid, r=None)
+            except asyncio.CancelledError:
+                raise
+            except adapter.AdapterError:
+                raise
+            except BaseException as exc:  # noqa: BLE001
+                rec["t_ret"] = self.loop._vtime
+                rec["exc"] = exc
+                rec["seq_ret"] = self.trace.add("user.raise", k="user.send", id=cid, e=type(exc).__name__)
+
+        self._conn_subs = getattr(self, "_conn_subs", [])
+        self._conn_subs.append(on_conn)
+        self.sock.subscribe_on_connection_changed(on_conn)
+
     def op_user_send_object(self, step) -> None:
         """Send a message object captured earlier (C03 relay)."""
         obj = step["_obj"]
@@ -511,9 +546,13 @@ class World:
             except adapter.AdapterError:
                 return False
 
-        cfg = hb.HeartbeatConfig(message=adapter.message_from(gen, {"kind": "version_request"}), response_match=match,
-                                 interval=step["interval"], timeout=step["timeout"])
-        self.hb = hb.HeartbeatManager(self.loop, self.sock, cfg)
+        if getattr(self, "hb", None) is None or not step.get("created_earlier"):
+            cfg = hb.HeartbeatConfig(message=adapter.message_from(gen, {"kind": "version_request"}), response_match=match,
+                                     interval=step["interval"], timeout=step["timeout"])
+            self.hb = hb.HeartbeatManager(self.loop, self.sock, cfg)
+        if step.get("create_only"):
+            self.trace.add("user.hb_create")
+            return
         self._spawn_user(step, lambda: self.hb.start())
 
     def op_user_hb_stop(self, step) -> None:
